@@ -362,6 +362,14 @@ static FILE *open_file(char *path) {
   return out;
 }
 
+// Finish writing an output file. A failed write (disk full, closed
+// pipe) must fail the compilation like any other error.
+static void close_file(FILE *out, char *path) {
+  if (fflush(out) || ferror(out) || (out != stdout && fclose(out)))
+    error("cannot write output file: %s: %s",
+          (path && strcmp(path, "-")) ? path : "<stdout>", strerror(errno));
+}
+
 static bool endswith(char *p, char *q) {
   int len1 = strlen(p);
   int len2 = strlen(q);
@@ -489,6 +497,7 @@ static void print_tokens(Token *tok) {
     prev = tok;
   }
   fprintf(out, "\n");
+  close_file(out, opt_o);
 }
 
 static bool in_std_include_path(char *path) {
@@ -538,6 +547,8 @@ static void print_dependencies(void) {
       fprintf(out, "%s:\n\n", quote_makefile(files[i]->name));
     }
   }
+
+  close_file(out, path);
 }
 
 static Token *must_tokenize_file(char *path) {
@@ -611,7 +622,7 @@ static void cc1(void) {
   // Write the asembly text to a file.
   FILE *out = open_file(output_file);
   fwrite(buf, buflen, 1, out);
-  fclose(out);
+  close_file(out, output_file);
 }
 
 static void assemble(char *input, char *output) {
